@@ -155,7 +155,11 @@ class Adt:
         return "%s::%s%r" % (self.path.rsplit("::", 1)[-1], self.vname, self.fields)
 
     def key(self):
-        return (self.path, self.vi, tuple(freeze(x) for x in self.fields))
+        p = self.path
+        for pre in ("std::", "core::", "alloc::"):
+            if p.startswith(pre):
+                p = p[len(pre):]
+        return (p, self.vi, tuple(freeze(x) for x in self.fields))
 
 
 class Opaque:
@@ -197,7 +201,19 @@ def freeze(v):
     if isinstance(v, Opaque):
         return ("opaque", v.name)
     if isinstance(v, Ref):
-        return ("ref",)
+        # compare references by referent (shared borrows of plain data)
+        try:
+            t = v.frame.locals[v.local]
+            for p in v.path:
+                if p == "*":
+                    continue
+                if p[0] == "f":
+                    t = t.fields[p[1]] if isinstance(t, Adt) else t[p[1]]
+                elif p[0] == "i":
+                    t = t.heap[t.start + p[1]] if isinstance(t, Slice) else t[p[1]]
+            return freeze(t) if not isinstance(t, Ref) else ("ref",)
+        except Exception:
+            return ("ref",)
     return v
 
 
@@ -382,6 +398,21 @@ class Interp:
             if "sv" in k:
                 return k["sv"]
             return k["v"]
+        if "ref" in k:
+            inner = dict(k["ref"])
+            inner.setdefault("ty", re.sub(r"^&(?:'\w+ )?(?:mut )?", "", ty))
+            v = self.const(inner, fr)
+            hf = Frame.__new__(Frame)
+            hf.fn = None
+            hf.locals = [v]
+            hf.id = -1
+            hf.gen = {}
+            return Ref(hf, 0, [])
+        if "adt2" in k:
+            a = k["adt2"]
+            path = self.P.norm(a["path"], False)
+            vals = [self.const(fk, fr) for fk in a["fields"]]
+            return Adt(path, a["vi"], a["vname"], vals)
         if "adt" in k:
             a = k["adt"]
             vals = [f.get("sv", f["v"]) for f in a["fields"]]
